@@ -556,10 +556,19 @@ impl Storage {
             )
             .expect("batch put should be ok");
         let tx_hash = tx.calc_tx_hash();
-        let tx_index = u32::max_value();
-        let key = Key::TxHash(&tx_hash).into_vec();
-        let value = Value::Transaction(block_number, tx_index as TxIndex, tx);
-        batch.put_kv(key, value).expect("batch put should be ok");
+        // The real tx index is unknown here, so a placeholder is stored. Do not overwrite a
+        // record written by `filter_block` for the same block: its real tx index is required to
+        // rebuild the live cell keys when the outputs are spent or a spending is rolled back.
+        let indexed_by_filter = matches!(
+            self.get_transaction(&tx_hash),
+            Some((stored_block_number, stored_tx_index, _))
+                if stored_block_number == block_number && stored_tx_index != TxIndex::MAX
+        );
+        if !indexed_by_filter {
+            let key = Key::TxHash(&tx_hash).into_vec();
+            let value = Value::Transaction(block_number, TxIndex::MAX, tx);
+            batch.put_kv(key, value).expect("batch put should be ok");
+        }
         batch.commit().expect("batch commit should be ok");
     }
 
